@@ -291,7 +291,7 @@ def run(ctx):
 
 MUTANTS = [
     dict(name='prime1-no-ck7', rule='C02.R1', file='src/lib/P11Attributes.h', with_tus=['src/lib/P11Attributes.cpp', 'src/lib/P11Objects.cpp', 'src/lib/SoftHSM.cpp'],
-         old='type = CKA_PRIME_1; checks = ck1|ck4|ck6|ck7;', new='type = CKA_PRIME_1; checks = ck1|ck4|ck6;'),
+         old='type = CKA_PRIME_1; checks = ck4|ck6|ck7;', new='type = CKA_PRIME_1; checks = ck4|ck6;'),
     dict(name='dsa-private-value-no-ck7', rule='C02.R1', file='src/lib/P11Objects.cpp',
          old='P11Attribute* attrValue = new P11AttrValue(osobject,P11Attribute::ck1|P11Attribute::ck4|P11Attribute::ck6|P11Attribute::ck7);',
          new='P11Attribute* attrValue = new P11AttrValue(osobject,P11Attribute::ck1|P11Attribute::ck4|P11Attribute::ck6);'),
@@ -306,3 +306,9 @@ MUTANTS = [
          old='\t\t\t\tif (baseKey->getBooleanValue(CKA_SENSITIVE, true)) {\n\t\t\t\t\tbOK = bOK && osobject->setAttribute(CKA_SENSITIVE, true);',
          new='\t\t\t\tif (baseKey->getBooleanValue(CKA_SENSITIVE, true) && pMechanism->mechanism == CKM_CONCATENATE_BASE_AND_DATA) {\n\t\t\t\t\tbOK = bOK && osobject->setAttribute(CKA_SENSITIVE, true);'),
 ]
+
+TECHNIQUE = 'custom static analysis over the clang AST: exhaustive table extraction (init-chain emulation), finite-domain path enumeration of the reveal guard and one-way flag setters, dominating-fact (guarded-effect) dataflow in C_WrapKey/deriveSymmetric'
+LEVEL_TEXT = ('Structural clauses of C02 decided for every row/path of the current source: the ck7 table is enumerated exhaustively over all key classes; '
+              'retrieve/updateAttr are evaluated on every abstract path for every combination of the finite guard domain; wrap/derive guards are checked on every path. '
+              'This decides that no code path can hand out or un-protect a secret attribute through these mechanisms; it does not inspect output bytes at run time.')
+LEVEL_NOTE = 'trusted: clang front end, the normaliser, the abstract interpreter; assumes OSObject* locals are not re-aliased and that callees outside /repo/src have no relevant effects'
